@@ -33,7 +33,7 @@ RULE = ('each run is (a) a fake-peer run: a status sequence drawn from gpg\'s vo
         'x API (library, CLI with -K/-s/-P) x process fault (exit status, signal, truncated/no output); non-trivial = a '
         'fault, a non-default key state/trust/clock or a mutation was in play; distinct = distinct outcome digest')
 PLAN = {'quick': {'n': 6000, 'budget_s': 90, 'block': 25, 'det': 3},
-        'thorough': {'n': 60000, 'budget_s': 1500, 'block': 100, 'det': 4}}
+        'thorough': {'n': 300000, 'budget_s': 2400, 'block': 100, 'det': 4}}
 ASSUMPTIONS = ['sequences with contradictory reports (several signatures: GOODSIG together with BADSIG/ERRSIG/EXPSIG, or accepting and rejecting TRUST_ lines) are a don\'t-care zone',
                'real-gpg runs log verdict classes only (no key material, fingerprints or times)']
 COMPONENTS_REAL = ['gpg 2.2.40 and gpgconf (real binaries) behind sim/gpgproxy in real-peer runs']
